@@ -161,4 +161,38 @@ def judgeFinal (j : J) (names : Nat) (tok : String) : Option String :=
   | ["aborted"] => some "operation-hangs"
   | _ => none
 
+/-! ### removal while a (slow) resolution is in flight
+
+  The real outputs of a `slowrr` / `slowres` line are read against the property: once Remove (Resolver.Close)
+  has returned, no poller goroutine of that name exists and the target is not polled any more; the name is
+  addable again and then has exactly one poller, which polls once; nothing is left at the end. -/
+
+def judgeSlowTok (tok : String) : Option String :=
+  match tok.splitOn "=" with
+  | ["add", v] => some s!"slow-target-not-added:{v}"
+  | ["rm", v] => if v = "t" then none else if v = "hang" then some "remove-while-resolving-hangs" else some s!"remove-while-resolving-returned:{v}"
+  | ["close", v] => if v = "ok" then none else if v = "hang" then some "close-while-resolving-hangs" else some s!"close-while-resolving-returned:{v}"
+  | ["pollers", v] => if v = "0" then none else some s!"poller-left-after-removal-returned:pollers={v}"
+  | ["late", v] => if v = "0" then none else some s!"target-polled-after-removal-returned:late={v}"
+  | ["readd", v] => if v = "ok" then none else some s!"name-not-present-but-not-addable:{v}"
+  | ["pollers2", v] =>
+    match v.toNat? with
+    | some n => if n > 1 then some s!"stale-poller-next-to-readded-target:pollers2={v}" else none
+    | none => some "bad-pollers2"
+  | ["streams2", v] =>
+    match v.toNat? with
+    | some n => if n > 1 then some s!"readded-target-polled-by-more-than-one-poller:streams2={v}" else none
+    | none => some "bad-streams2"
+  | ["rm2", v] => if v = "hang" || v = "panic" then some s!"second-remove-{v}" else none
+  | ["close2", v] => if v = "hang" || v = "panic" then some s!"second-close-{v}" else none
+  | ["leak", v] => if v = "0" then none else some s!"goroutines-left-after-removing-everything:{v}"
+  | ["aborted"] => some "scenario-aborted"
+  | _ => none
+
+def judgeSlow : List String → Option String
+  | [] => none
+  | t :: ts => match judgeSlowTok t with
+    | some v => some v
+    | none => judgeSlow ts
+
 end GB.C16
